@@ -204,7 +204,23 @@ def scripted_model_3(theta, N, seed):  # noqa: N803
     return _model(theta, N, seed, 3)
 
 
-MODELS = {1: scripted_model, 2: scripted_model_2, 3: scripted_model_3}
+def scripted_model_slow(theta, N, seed):  # noqa: N803
+    """run time depends on the parameters: the first rows of a batch finish last when several workers run the batch"""
+    import time
+
+    if int(theta[2]) % 2 == 0:
+        time.sleep(0.08)
+    return _model(theta, N, seed, 1)
+
+
+MODELS = {1: scripted_model, 2: scripted_model_2, 3: scripted_model_3, "slow": scripted_model_slow}
+
+
+def current_model():
+    return MODELS["slow"] if SLOW[0] else MODELS[MODEL_D[0]]
+
+
+SLOW = [False]
 
 
 def decode_series(series):
@@ -424,7 +440,7 @@ def disk_event(rec: Recorder, folder: str) -> dict:
     try:
         try:
             with quiet():
-                r = Calibrator.restore_from_checkpoint(folder, model=MODELS[MODEL_D[0]])
+                r = Calibrator.restore_from_checkpoint(folder, model=current_model())
         except Exception as e:  # noqa: BLE001
             return {"e": "disk", "bi": -1, "ns": -1, "rows": [], "rng": -1, "names": [], "namesok": False, "error": repr(e)[:200]}
         st = json.dumps(r.random_generator.bit_generator.state, sort_keys=True, default=int)
@@ -498,11 +514,12 @@ def run_script(script: dict) -> dict:
         with quiet():
             samplers = [make_sampler(d, 9000 + i) for i, d in enumerate(cfg["lineup"])]
             loss = TableLoss(script.get("loss", {}).get("by", {}), script.get("loss", {}).get("default", 6), int(cfg.get("D", 1)))
-            MODEL_D[0] = int(cfg.get("D", 1))
+            SLOW[0] = bool(cfg.get("slow", False))
+            MODEL_D[0] = 1 if SLOW[0] else int(cfg.get("D", 1))
             real = np.zeros((cfg.get("Nreal", cfg["N"]), MODEL_D[0]))
             sched = build_scheduler(cfg, samplers, script.get("agent"))
             kw = {"samplers": samplers} if sched is None else {"scheduler": sched}
-            cal = Calibrator(loss_function=loss, real_data=real, model=MODELS[MODEL_D[0]], parameters_bounds=SPACE_BOUNDS,
+            cal = Calibrator(loss_function=loss, real_data=real, model=current_model(), parameters_bounds=SPACE_BOUNDS,
                              parameters_precision=SPACE_PREC, ensemble_size=cfg["E"],
                              sim_length=None if cfg.get("Nreal", cfg["N"]) == cfg["N"] else cfg["N"],
                              convergence_precision=cfg["prec"] if cfg["convon"] else None, verbose=cfg["verbose"],
@@ -534,7 +551,7 @@ def run_script(script: dict) -> dict:
                     rec.log({"e": "mkckpt"})
                     rec.log(disk_event(rec, folder))
                 elif kind == "restore":
-                    cal = Calibrator.restore_from_checkpoint(folder, model=MODELS[MODEL_D[0]])
+                    cal = Calibrator.restore_from_checkpoint(folder, model=current_model())
                     rec.cal = cal
                     rec.log({"e": "restore"})
                     rec.log(idle_event(rec, cal, base_threads, False))
